@@ -370,25 +370,26 @@ def rule_C(run, prog):
         views = {}
         for n in walk_no_nested(fn.node):
             if isinstance(n, ast.Assign) and isinstance(n.value, ast.Call) and len(n.targets) == 1:
-                c = n.value
-                cn = norm(c.func).split(".")[-1]
-                is_view = (cn == "einsum" and len(c.args) == 2 and norm(c.args[1]) in ("self.data", "self._data")) or \
-                          (cn in ("diagonal", "reshape", "transpose", "swapaxes", "ravel") and c.args
-                           and norm(c.args[0]) in ("self.data", "self._data"))
-                if is_view:
-                    views[norm(n.targets[0])] = n
-        if not views:
-            continue
-        for tgt, node in sorted(views.items()):
+                inner = [c for c in ast.walk(n.value) if isinstance(c, ast.Call)
+                         and ((norm(c.func).split(".")[-1] == "einsum" and len(c.args) == 2
+                               and norm(c.args[1]) in ("self.data", "self._data"))
+                              or (norm(c.func).split(".")[-1] in ("diagonal", "reshape", "transpose", "swapaxes", "ravel")
+                                  and c.args and norm(c.args[0]) in ("self.data", "self._data")))]
+                if inner:
+                    # the extraction is a view unless the statement itself copies it
+                    views.setdefault(norm(n.targets[0]), []).append((n, inner[0] is n.value))
+        for tgt, items in sorted(views.items()):
             nview += 1
             writes = [w for w in walk_no_nested(fn.node) if isinstance(w, (ast.Assign, ast.AugAssign))
                       and any(isinstance(t_, ast.Subscript) and norm(t_.value) == tgt
                               for t_ in (w.targets if isinstance(w, ast.Assign) else [w.target]))]
-            run.obligation(rid, "RelaxationTensor." + nme, not writes, key="no-write-through-view:" + tgt,
+            raw = [n for n, is_view in items if is_view]
+            run.obligation(rid, "RelaxationTensor." + nme, not (raw and writes), key="no-write-through-view:" + tgt,
                            message="%s is a view of the tensor data (%s) and is then written element-wise (%s): the "
                                    "tensor itself is modified (R[i,i,i,i] zeroed), the trace identity is lost"
-                                   % (tgt, norm(node.value)[:50], [norm(w)[:40] for w in writes[:2]]),
-                           loc=fn.loc(writes[0]) if writes else fn.loc(node), sample={"view": tgt})
+                                   % (tgt, norm(raw[0].value)[:50] if raw else "", [norm(w)[:40] for w in writes[:2]]),
+                           loc=fn.loc(writes[0]) if writes else fn.loc(items[0][0]),
+                           sample={"extracted": tgt, "copied": not raw, "element_writes": len(writes)})
     if nview < 2:
         raise AnalysisError("secular bookkeeping: views of the tensor data not found (%d)" % nview)
     # sibling agreement
